@@ -923,12 +923,23 @@ def apath(body, x, depth=0, seen=None):
         r = None
         if kind == 'assign':
             rv = d['rv']
-            if rv['k'] in ('use', 'cast'):
-                r = apath(body, rv['op'], depth + 1, seen)
-            elif rv['k'] in ('ref', 'rawptr'):
-                r = apath(body, rv['place'], depth + 1, seen)
+            if rv['k'] in ('use', 'cast', 'ref', 'rawptr'):
+                q = op_place(rv['op']) if rv['k'] in ('use', 'cast') else rv['place']
+                if q is None:
+                    r = None
+                else:
+                    # carry the fields selected so far along (they may select a field of an aggregate built further up)
+                    inner = apath(body, {'l': q['l'], 'p': list(q.get('p') or []) + list(x.get('p') or [])}, depth + 1, seen)
+                    r = ('__full__',) + inner if inner is not None else None
             elif rv['k'] == 'agg' and rv.get('agg') == 'adt' and len(rv['fields']) == 1 and rv['adt'].startswith('std::pin::Pin'):
                 r = apath(body, rv['fields'][0], depth + 1, seen)
+            elif rv['k'] == 'agg' and fields and rv.get('agg') in ('closure', 'coroutine', 'tuple', 'adt'):
+                # a field of a value built here (e.g. a captured variable of a spliced async helper): continue with the
+                # operand stored into that field
+                names = rv.get('names') or [str(i_) for i_ in range(len(rv['fields']))]
+                if fields[0] in names:
+                    inner = apath(body, rv['fields'][names.index(fields[0])], depth + 1, seen)
+                    r = ('__full__',) + (inner + tuple(fields[1:])) if inner is not None else None
         elif kind == 'call':
             nm = callee_name(d) or ''
             if APATH_TRANSPARENT.search(nm) and d['args']:
@@ -940,6 +951,8 @@ def apath(body, x, depth=0, seen=None):
         r = res.pop()
         if r is None:
             return None
+        if r and r[0] == '__full__':
+            return r[1:]
         return r + fields
     return None
 
